@@ -477,7 +477,12 @@ class SimBus:
         self._deliver(None, msg, to_devices=False)
 
     def _copy(self, msg):
-        return self._can.Message(arbitration_id=msg.arbitration_id, data=bytes(msg.data),
+        # what goes onto the wire is the frame's DLC worth of data bytes (a Message whose data was replaced after it
+        # was built keeps its old dlc: a real controller then sends the old number of bytes)
+        data = bytes(msg.data)
+        if not msg.is_remote_frame and msg.dlc != len(data):
+            data = data[:msg.dlc].ljust(msg.dlc, b"\0")
+        return self._can.Message(arbitration_id=msg.arbitration_id, data=data,
                                  is_extended_id=msg.is_extended_id, is_remote_frame=msg.is_remote_frame,
                                  is_error_frame=msg.is_error_frame, timestamp=msg.timestamp)
 
